@@ -165,11 +165,22 @@ def run(ctx):
   # BindingStatement built from the parsed key
   ps = ctx.func(CP + '.parse_statement')
   okb = False
+  unpack = False
+  key_parts, key_whole = None, set()
   for n in walk_local(ps.node):
-    if isinstance(n, ast.Assign) and isinstance(n.value, ast.Call) and u(n.value.func) == 'BindingStatement':
-      okb = [u(a) for a in n.value.args[:4]] == ['scope', 'selector', 'arg_name', 'value']
-  unpack = any(isinstance(n, ast.Assign) and isinstance(n.targets[0], ast.Tuple) and [u(e) for e in n.targets[0].elts] == ['scope', 'selector', 'arg_name']
-               and isinstance(n.value, ast.Call) and u(n.value.func) == 'parse_binding_key' for n in walk_local(ps.node))
+    if isinstance(n, ast.Assign) and isinstance(n.value, ast.Call) and u(n.value.func) == 'parse_binding_key' and len(n.targets) == 1:
+      if isinstance(n.targets[0], ast.Tuple) and len(n.targets[0].elts) == 3:
+        key_parts = [u(e) for e in n.targets[0].elts]
+      elif isinstance(n.targets[0], ast.Name):
+        key_whole.add(n.targets[0].id)
+  for n in walk_local(ps.node):
+    if isinstance(n, ast.Call) and u(n.func) == 'BindingStatement' and not n.keywords:
+      a = n.args
+      if key_parts and len(a) >= 4 and [u(x) for x in a[:3]] == key_parts and u(a[3]) == 'value':
+        okb, unpack = True, True
+      # BindingStatement(*key, value, loc): the three parts in the order the key splitter returns them
+      if len(a) >= 2 and isinstance(a[0], ast.Starred) and (u(a[0].value) in key_whole or u(a[0].value).startswith('parse_binding_key(')) and u(a[1]) == 'value':
+        okb, unpack = True, True
   ctx.check(okb and unpack, 'C03.kinds', construct(ps), 'a binding statement carries (scope, selector, parameter, value) from the key splitter in that order',
             'BindingStatement fields are no longer (scope, selector, arg_name, value) from parse_binding_key', ps.loc(), instance='binding-fields')
 
